@@ -1,8 +1,75 @@
+(** C03 — every reaction proposed by rule application is a genuine instance of the rule.
+    Statements only; every proof is [exact <lemma of proof/C03_*.v>].
+
+    Vocabulary (model/C03_Model.v unless said otherwise): [glue host rc m] = SynReactor._glue_graph on one match
+    ([None] = no ITS is produced); [match_rcb host rc m] / [wf_hostb] / [wf_rcb] = the boolean hypotheses, all three
+    evaluated by [run_c03] on every glued mapping of every correspondence case; [adj] = bond lookup (unordered pair);
+    [bondG T a b] = reactant-side bond of an ITS ([None] when order_G = 0); [lift o] = (o, o, 0);
+    [find_hit m es a b] = the template edge mapped by [m] onto the host pair {a, b}; [sumZ w T] = sum of [w] over the
+    nodes of [T]; [dH] / [dQ] = product-minus-reactant hydrogen count / charge of one ITS node (proof/C03_Proof.v). *)
 From Coq Require Import List NArith ZArith Bool.
 From SK Require Import lib.Tok lib.LGraph model.C03_Model proof.C03_Proof.
 Import ListNotations.
 Local Open Scope Z_scope.
 
-Theorem C03_node_left_is_host : forall hn pn : inode, iG (node_glue hn pn) = iG hn.
-Proof. exact node_glue_left. Qed.
-Print Assumptions C03_node_left_is_host.
+(** (a) the substrate, unchanged, is the reactant side of the glued ITS: same atoms, every reactant tuple is the
+    host's tuple, the reactant-side bonds are exactly the host bonds *)
+Theorem C03_left_is_host : forall (host : hostg) (rc : its) (m : mapping) (T : its),
+  wf_hostb host = true -> wf_rcb rc = true -> match_rcb host rc m = true -> glue host rc m = Some T ->
+  node_ids T = node_ids host /\
+  (forall n : N, option_map iG (label T n) = label host n) /\
+  (forall a b : N, bondG T a b = adj host a b).
+Proof. exact left_is_host. Qed.
+Print Assumptions C03_left_is_host.
+
+(** (b) the glued ITS changes the total hydrogen count and the total charge by exactly what the template changes
+    them, and never changes an element *)
+Theorem C03_conserve_sums : forall (host : hostg) (rc : its) (m : mapping) (T : its),
+  wf_hostb host = true -> wf_rcb rc = true -> match_rcb host rc m = true -> glue host rc m = Some T ->
+  sumZ dH T = sumZ dH rc /\ sumZ dQ T = sumZ dQ rc /\
+  (forall (n : N) (a : inode), label T n = Some a -> a_el (iH a) = a_el (iG a)).
+Proof. exact conserve. Qed.
+Print Assumptions C03_conserve_sums.
+
+(** (c) no other bond of the substrate is altered *)
+Theorem C03_unchanged_elsewhere : forall (host : hostg) (rc : its) (m : mapping) (T : its),
+  wf_rcb rc = true -> match_rcb host rc m = true -> glue host rc m = Some T ->
+  forall a b : N, find_hit m (gedges rc) a b = None -> adj T a b = option_map lift (adj host a b).
+Proof. exact unchanged_elsewhere. Qed.
+Print Assumptions C03_unchanged_elsewhere.
+
+(** (c) every template edge has an image bond in the result whose order changes by the template's amount *)
+Theorem C03_changes_image : forall (host : hostg) (rc : its) (m : mapping) (T : its),
+  wf_rcb rc = true -> match_rcb host rc m = true -> glue host rc m = Some T ->
+  forall (u v : N) (x : iedge), In (u, v, x) (gedges rc) ->
+  exists (hu hv : N) (y : iedge),
+    mget m u = Some hu /\ mget m v = Some hv /\ adj T hu hv = Some y /\ eH y - eG y = eH x - eG x.
+Proof. exact changes_image. Qed.
+Print Assumptions C03_changes_image.
+
+(** (c) conversely every changed bond of the result is the image of a template edge, with the same change *)
+Theorem C03_changes_only : forall (host : hostg) (rc : its) (m : mapping) (T : its),
+  wf_rcb rc = true -> match_rcb host rc m = true -> glue host rc m = Some T ->
+  forall (a b : N) (y : iedge), adj T a b = Some y -> eG y <> eH y ->
+  exists (u v : N) (x : iedge),
+    In (u, v, x) (gedges rc) /\ hits m (u, v, x) a b = true /\ eH y - eG y = eH x - eG x.
+Proof. exact changes_only. Qed.
+Print Assumptions C03_changes_only.
+
+(** the additive branch exactly (after fb58253): a template edge that forms a bond over an existing host bond adds
+    its order to the host's, and an ITS is produced only when the sum is an integral bond order (even in half-units) *)
+Theorem C03_additive : forall (host : hostg) (rc : its) (m : mapping) (T : its),
+  wf_rcb rc = true -> match_rcb host rc m = true -> glue host rc m = Some T ->
+  forall (u v : N) (x : iedge) (hu hv : N) (o : Z),
+  In (u, v, x) (gedges rc) -> eG x = 0 -> mget m u = Some hu -> mget m v = Some hv -> adj host hu hv = Some o ->
+  adj T hu hv = Some (o, o + eH x, eS x) /\ Z.odd (o + eH x) = false.
+Proof. exact additive. Qed.
+Print Assumptions C03_additive.
+
+(** standard_order stays order_G - order_H on every bond of the result *)
+Theorem C03_std_consistent : forall (host : hostg) (rc : its) (m : mapping) (T : its),
+  wf_rcb rc = true -> match_rcb host rc m = true -> glue host rc m = Some T ->
+  (forall (u v : N) (x : iedge), In (u, v, x) (gedges rc) -> eS x = eG x - eH x) ->
+  forall (a b : N) (y : iedge), adj T a b = Some y -> eS y = eG y - eH y.
+Proof. exact std_consistent_glue. Qed.
+Print Assumptions C03_std_consistent.
